@@ -963,9 +963,25 @@ def key_never_bypasses_relpath(ctx, rid):
         cbb = info[0]
         if not any(re.search(r"PartialEq(<.*>)?(>)?::(eq|ne)", p_) for p_ in callee_paths(info[1])):
             continue
-        # does the compared value come from the ALWAYS constant?
-        uses_always = any(ba.dominates(x, cbb) and ba.path([x], [cbb], incl=True) is not None for x in always_blocks) and \
-            any(x == cbb or ba.path([x], [cbb], avoid=relp, incl=True) is not None for x in always_blocks)
+        # does a compared value come from the ALWAYS constant (directly, or through a conversion such as OsStr::new)?
+        def from_always(l, depth=6):
+            if l is None or depth == 0:
+                return False
+            for x in [l] + ba.ref_chain(l, depth=10):
+                for dd in ba.defs.get(x, []):
+                    if dd[0] == "stmt":
+                        for c in __import__("core").rvalue_consts(dd[3]):
+                            if c.get("str") == "//ALWAYS" or (c.get("named") or "").endswith("ALWAYS"):
+                                return True
+                    elif dd[0] == "call":
+                        for a in dd[2].get("args", []):
+                            c = op_const(a)
+                            if c is not None and (c.get("str") == "//ALWAYS" or (c.get("named") or "").endswith("ALWAYS")):
+                                return True
+                            if op_local(a) is not None and from_always(op_local(a), depth - 1):
+                                return True
+            return False
+        uses_always = any(from_always(op_local(a)) or ((op_const(a) or {}).get("str") == "//ALWAYS") for a in info[1].get("args", []))
         if not uses_always:
             continue
         eq_side = t_t if any(p_.endswith("::eq") for p_ in callee_paths(info[1])) else f_t
@@ -1028,13 +1044,36 @@ def record_names_relative_to_target_dir(ctx, rid):
 def non_record_line_echoed_whole(ctx, rid):
     ctx.rule(rid, "PrettyLog::write_line emits a slice of the line (the text in front of a record) only where a record was parsed; on every other path the bytes written are the whole line")
     prog = ctx.prog
-    W = prog.one(r"logs::PrettyLog::write_line")
+    W = prog.one(r"<logs::PrettyLog(<.*>)? as logs::Logger>::write_line|logs::PrettyLog(<.*>)?::write_line")
     fam = [W] + [c for k, c in prog.bodies.items() if k.startswith(W.key + "::{")]
     ba = BA.of(W)
     slicers = [i for i in ba.all_calls() if any(re.fullmatch(r"core::str::<impl str>::(split_at|split_once|split_at_mut)|.*::index::Index(<.*>)?(>)?::index|core::str::traits::<impl core::ops::index::Index<I> for str>::index|core::ops::index::Index::index", q) for q in callee_paths(W.blocks[i]["term"]))]
-    if not ctx.floor(rid, "slices of the line taken in write_line", len(slicers), 1):
+    # only slices cut at the position of the record marker count (trimming the trailing newline is not one)
+    finds = [i for i in ba.all_calls() if any(re.fullmatch(r"core::str::<impl str>::(find|rfind|match_indices|split_once)", q) for q in callee_paths(W.blocks[i]["term"]))]
+    pos_t = taint(W, seeds={W.blocks[i]["term"]["dest"]["l"] for i in finds}, mode="derived") if finds else set()
+
+    def cut_at_marker(i):
+        t = W.blocks[i]["term"]
+        if any(q.endswith("split_once") for q in callee_paths(t)):
+            return True
+        for a in t["args"][1:]:
+            l = op_local(a)
+            if l is not None and (l in pos_t or any(x in pos_t for x in ba.ref_chain(l))):
+                return True
+        return False
+    slicers = [i for i in slicers if cut_at_marker(i)]
+    if not ctx.floor(rid, "slices of the line cut at the record marker in write_line", len(slicers), 1):
         return
-    st = taint(W, seeds={W.blocks[i]["term"]["dest"]["l"] for i in slicers}, mode="derived")
+    # the slice itself (and its byte view), not everything computed from it
+    seeds_ = {W.blocks[i]["term"]["dest"]["l"] for i in slicers}
+    for _ in range(4):
+        st = taint(W, seeds=seeds_, mode="direct")
+        more = {W.blocks[i]["term"]["dest"]["l"] for i in ba.all_calls()
+                if any(re.fullmatch(r"core::str::<impl str>::(as_bytes|as_ptr|trim|trim_end|trim_start)|alloc::string::String::as_bytes", q) for q in callee_paths(W.blocks[i]["term"]))
+                and W.blocks[i]["term"].get("args") and (op_local(W.blocks[i]["term"]["args"][0]) in st or any(x in st for x in ba.ref_chain(op_local(W.blocks[i]["term"]["args"][0]) or -1)))}
+        if more <= seeds_:
+            break
+        seeds_ |= more
     sinks = [i for i in ba.all_calls() if any(re.fullmatch(r"(<.* as )?std::io::Write(>)?::(write|write_all)|std::io::Write::(write|write_all)|(<.* as )?core::iter::traits::collect::Extend(<.*>)?(>)?::extend|alloc::vec::Vec::extend_from_slice", q) for q in callee_paths(W.blocks[i]["term"]))]
     # "a record was parsed" edges: the Some / Ok arm of a switch on a value whose type carries a logs::Meta
     ok_edges = []
